@@ -45,6 +45,21 @@ Theorem C14_unvisited_module_unselected : forall O k funcs def t lib so,
 Proof. exact unvisited_module_unselected. Qed.
 Print Assumptions C14_unvisited_module_unselected.
 
+(* whether libraries are looked at depends on the SET of options, not on their order ... *)
+Theorem C14_visited_order_independent : forall l l',
+  Permutation.Permutation l l' -> needs_modules (render_opts l) = needs_modules (render_opts l').
+Proof. exact visited_order_independent. Qed.
+Print Assumptions C14_visited_order_independent.
+
+(* ... and a library the list selects a function of is looked at, for every list *)
+Theorem C14_selected_module_is_visited : forall O k funcs def t lib so name,
+  match_pattern_list O (parse_pattern_list O funcs def t) lib so name <> 0%Z ->
+  bytes_eqb def (basename lib) = false ->
+  (forall s, so = Some s -> bytes_eqb def s = false) ->
+  module_visited k funcs (parse_pattern_list O funcs def t) lib so = true.
+Proof. exact selected_module_is_visited. Qed.
+Print Assumptions C14_selected_module_is_visited.
+
 (* the code as found (default module compared as a prefix): `-P plug` with executable "prog" selects
    plug() of "prog_plugin.so", which is not looked at unless an unrelated option carries an '@' *)
 Theorem C14_default_module_prefix_legacy_refuted :
